@@ -27,8 +27,8 @@ VERIF = os.path.dirname(os.path.dirname(os.path.abspath(__file__)))
 REPO = os.environ.get("VERIF_REPO", "/repo")
 HARNESS_DIR = os.path.join(VERIF, "harness")
 MODELS_DIR = os.path.join(VERIF, "models")
-EVIDENCE_DIR = os.path.join(VERIF, "evidence")
-REPLAY_DIR = os.path.join(VERIF, "replays")
+EVIDENCE_DIR = os.environ.get("VERIF_EVIDENCE_DIR") or os.path.join(VERIF, "evidence")
+REPLAY_DIR = os.environ.get("VERIF_REPLAY_DIR") or os.path.join(VERIF, "replays")
 KNOWN = os.path.join(VERIF, "known_findings.json")
 NCPU = os.cpu_count() or 4
 
@@ -314,7 +314,7 @@ def rss_watchdog(stop, killed, cap_kb=RSS_CAP_KB):
                     pass
 
 
-def kani_cmd(scratch, names, cap, jobs, extra=()):
+def kani_cmd(scratch, names, cap, jobs, extra=(), tail=()):
     cmd = ["cargo", "kani", "--target-dir", os.path.join(scratch, "kt"),
            "--no-default-features", "--lib",
            "-Z", "stubbing", "-Z", "unstable-options",
@@ -325,11 +325,12 @@ def kani_cmd(scratch, names, cap, jobs, extra=()):
     cmd += list(extra)
     for n in names:
         cmd += ["--harness", n]
+    cmd += list(tail)   # --cbmc-args must come last
     return cmd
 
 
-def run_kani(scratch, names, cap, jobs, logpath, extra=(), rss_cap_kb=RSS_CAP_KB):
-    cmd = kani_cmd(scratch, names, cap, jobs, extra)
+def run_kani(scratch, names, cap, jobs, logpath, extra=(), rss_cap_kb=RSS_CAP_KB, tail=()):
+    cmd = kani_cmd(scratch, names, cap, jobs, extra, tail)
     env = dict(os.environ)
     env["CARGO_NET_OFFLINE"] = "true"
     env.pop("RUSTUP_TOOLCHAIN", None)
@@ -358,60 +359,87 @@ def run_kani(scratch, names, cap, jobs, logpath, extra=(), rss_cap_kb=RSS_CAP_KB
 # Counterexample replay (Kani concrete playback -> native test in the scratch copy)
 # --------------------------------------------------------------------------------------
 
-PLAYBACK_RE = re.compile(r"Concrete playback unit test for `[^`]*`:\s*```\s*(.*?)```", re.S)
+PLAYBACK_RE = re.compile(r"Concrete playback unit test for `([^`]*)`:\s*```\s*(.*?)```", re.S)
 
 
-def concrete_playback(scratch, h, cap, workdir):
-    """Ask Kani for the concrete values of the counterexample; returns unit test text or None."""
-    logpath = os.path.join(workdir, "playback_%s.log" % h.name)
-    _rc, text, _t, _k = run_kani(scratch, [h.name], cap, 1, logpath,
+def concrete_playback_batch(scratch, hs, cap, workdir):
+    """One Kani run (-j) asking for the concrete values of every counterexample.
+    Returns {harness name: unit test text}."""
+    logpath = os.path.join(workdir, "playback.log")
+    names = [h.name for h in hs]
+    _rc, text, _t, _k = run_kani(scratch, names, cap, min(4, len(names)), logpath,
                                  extra=["-Z", "concrete-playback", "--concrete-playback", "print"],
-                                 rss_cap_kb=40 * 1024 * 1024)
-    m = PLAYBACK_RE.search(text)
-    if not m:
-        return None
-    return m.group(1).strip() + "\n"
+                                 rss_cap_kb=14 * 1024 * 1024,
+                                 tail=["--cbmc-args", "--slice-formula"])
+    out = {}
+    text = re.sub(r"^Thread \d+: ?", "", text, flags=re.M)
+    for m in PLAYBACK_RE.finditer(text):
+        short = m.group(1).split("::")[-1]
+        if short in names and short not in out:
+            out[short] = m.group(2).strip() + "\n"
+    return out
 
 
-def native_replay(h, test_src, profile_release=False):
-    """Run the playback test natively on a fresh scratch copy WITHOUT model substitution
-    (real BTreeMap, real libm, no stubs). Returns (reproduced: bool, output)."""
+def native_replay_batch(items, profile_release=False):
+    """items: list of (harness, playback test source). Runs every playback test natively on a
+    fresh scratch copy WITHOUT model substitution (real BTreeMap, real libm, no stubs applied).
+    Returns {harness name: (reproduced: bool|None, output tail)}."""
+    res = {}
+    if not items:
+        return res
     scratch = make_scratch("replay")
     try:
-        inject(scratch, [h.file], btree=False)
-        tgt = os.path.join(scratch, h.target)
-        modname = "verif_kani_" + re.sub(r"\W", "_", os.path.basename(h.file)[:-3])
-        s = open(tgt).read()
-        # put the playback test inside the harness module so it can see the harness fn
-        marker = "include!(\"%s\");\n" % h.file
-        s = s.replace(marker, marker + "\n" + test_src + "\n")
-        open(tgt, "w").write(s)
-        mt = re.search(r"fn (kani_concrete_playback_\w+)", test_src)
-        tname = mt.group(1) if mt else "kani_concrete_playback"
-        cmd = ["cargo", "kani", "playback", "-Z", "concrete-playback", "--no-default-features",
-               "--features", "with_plain", "--lib"]
-        cmd += ["--", tname]
+        files = sorted(set(h.file for h, _t in items))
+        inject(scratch, files, btree=False)
+        for h, test_src in items:
+            tgt = os.path.join(scratch, h.target)
+            s = open(tgt).read()
+            marker = "include!(\"%s\");\n" % h.file
+            s = s.replace(marker, marker + "\n" + test_src + "\n", 1)
+            open(tgt, "w").write(s)
         env = dict(os.environ)
         env["CARGO_NET_OFFLINE"] = "true"
         env["CARGO_TARGET_DIR"] = os.path.join(scratch, "pt")
+        env["RUST_MIN_STACK"] = "268435456"
         if profile_release:
             # the release profile users run: optimised, no debug assertions, wrapping overflow
             env["CARGO_PROFILE_TEST_OPT_LEVEL"] = "3"
             env["CARGO_PROFILE_TEST_DEBUG_ASSERTIONS"] = "false"
             env["CARGO_PROFILE_TEST_OVERFLOW_CHECKS"] = "false"
-        p = subprocess.run(cmd, cwd=scratch, env=env, stdout=subprocess.PIPE, stderr=subprocess.STDOUT,
-                           text=True, timeout=1200)
-        out = p.stdout
-        ran = re.search(r"test result: (\w+)\. (\d+) passed; (\d+) failed", out)
-        if not ran:
-            return None, out
-        failed = int(ran.group(3)) > 0
-        passed = int(ran.group(2)) > 0
-        if not failed and not passed:
-            return None, out
-        return failed, out
+        for h, test_src in items:
+            mt = re.search(r"fn (kani_concrete_playback_\w+)", test_src)
+            tname = mt.group(1) if mt else "kani_concrete_playback"
+            cmd = ["cargo", "kani", "playback", "-Z", "concrete-playback", "--no-default-features",
+                   "--features", "with_plain", "--lib", "--", tname]
+            try:
+                p = subprocess.run(cmd, cwd=scratch, env=env, stdout=subprocess.PIPE,
+                                   stderr=subprocess.STDOUT, text=True, timeout=1500)
+                out = p.stdout
+            except subprocess.TimeoutExpired:
+                res[h.name] = (None, "native replay timed out")
+                continue
+            ran = re.search(r"test result: (\w+)\. (\d+) passed; (\d+) failed", out)
+            if "concrete_playback.rs" in out and "det vals" in out:
+                # Kani's playback ran out of / misread its value list: not a reproduction
+                res[h.name] = (None, "playback value list misaligned: " + out[-3000:])
+            elif ran and int(ran.group(3)) > 0:
+                res[h.name] = (True, out[-12000:])
+            elif ran and int(ran.group(2)) > 0:
+                res[h.name] = (False, out[-3000:])
+            elif "running 1 test" in out and re.search(r"signal: \d+", out):
+                # the test process died (abort / stack overflow / segfault): a crash of the real
+                # code on the replayed input is a reproduction of a panic-freedom violation
+                res[h.name] = (True, out[-12000:])
+            else:
+                res[h.name] = (None, out[-3000:])
+        return res
     finally:
         shutil.rmtree(scratch, ignore_errors=True)
+
+
+def native_replay(h, test_src, profile_release=False):
+    r = native_replay_batch([(h, test_src)], profile_release)
+    return r.get(h.name, (None, ""))
 
 
 # --------------------------------------------------------------------------------------
@@ -511,6 +539,7 @@ def run_check(prop, tier, seed, extra_engines=None, only=None):
                             results[n] = res2[n]
         # ---- judge
         byname = {h.name: h for h in hs}
+        to_replay = []
         for name, r in sorted(results.items()):
             h = byname.get(name)
             if h is None:
@@ -531,42 +560,39 @@ def run_check(prop, tier, seed, extra_engines=None, only=None):
                 if k:
                     known_hits.append((h, r, k))
                     continue
-                # replay natively
-                test_src = concrete_playback(scratch, h, h.cap(tier), workdir)
-                rep_dir = os.path.join(REPLAY_DIR, prop)
-                os.makedirs(rep_dir, exist_ok=True)
-                rep_path = os.path.join(rep_dir, "%s.json" % name)
-                reproduced, out, out_rel = None, "", ""
-                if test_src and h.attrs.get("replay", "native") == "native":
-                    try:
-                        reproduced, out = native_replay(h, test_src)
-                        rel_rep, out_rel = native_replay(h, test_src, profile_release=True)
-                    except Exception as e:  # noqa
-                        out = "replay machinery failed: %r" % e
-                        rel_rep = None
-                else:
-                    rel_rep = None
-                rec = {"property": prop, "harness": name, "harness_file": os.path.relpath(h.file, VERIF),
-                       "target": h.target, "failed_checks": r.failed_checks,
-                       "playback_test": test_src, "native_dev_reproduced": reproduced,
-                       "native_release_reproduced": rel_rep,
-                       "native_output_tail": (out or "")[-3000:], "repo_src_sha256": sha}
-                json.dump(rec, open(rep_path, "w"), indent=1)
-                if h.attrs.get("replay", "native") == "model":
-                    # the harness compares against stubs that do not exist natively; the
-                    # counterexample is reported as found by the solver over the compiled code
-                    violations.append((h, r, rep_path))
-                elif reproduced:
-                    violations.append((h, r, rep_path))
-                else:
-                    r.status = "undecided"
-                    r.reason = "counterexample did not reproduce natively (encoding/stub suspect)"
-                    inconclusive.append("%s: counterexample not reproduced" % name)
+                to_replay.append((h, r))
             elif r.status == "undecided":
                 if h.attrs.get("may_timeout") == "yes" and "timeout" in r.reason:
                     pass  # reported as undecided in the evidence, not counted as pass, not fatal
                 else:
                     inconclusive.append("%s: %s" % (name, r.reason))
+        if to_replay:
+            log("replaying %d counterexample(s) natively" % len(to_replay))
+            tests = concrete_playback_batch(scratch, [h for h, _r in to_replay],
+                                            max(h.cap(tier) for h, _r in to_replay), workdir)
+            native = [(h, tests[h.name]) for h, _r in to_replay
+                      if h.name in tests and h.attrs.get("replay", "native") == "native"]
+            dev = native_replay_batch(native)
+            rel = native_replay_batch([(h, t) for h, t in native if dev.get(h.name, (None, ""))[0]],
+                                      profile_release=True)
+            for h, r in to_replay:
+                rep_dir = os.path.join(REPLAY_DIR, prop)
+                os.makedirs(rep_dir, exist_ok=True)
+                rep_path = os.path.join(rep_dir, "%s.json" % h.name)
+                reproduced, out = dev.get(h.name, (None, "no playback test produced by Kani"))
+                rel_rep = rel.get(h.name, (None, ""))[0]
+                rec = {"property": prop, "harness": h.name, "harness_file": os.path.relpath(h.file, VERIF),
+                       "target": h.target, "failed_checks": r.failed_checks,
+                       "playback_test": tests.get(h.name), "native_dev_reproduced": reproduced,
+                       "native_release_reproduced": rel_rep,
+                       "native_output_tail": (out or "")[-3000:], "repo_src_sha256": sha}
+                json.dump(rec, open(rep_path, "w"), indent=1)
+                if h.attrs.get("replay", "native") == "model" or reproduced:
+                    violations.append((h, r, rep_path))
+                else:
+                    r.status = "undecided"
+                    r.reason = "counterexample did not reproduce natively (encoding/stub suspect)"
+                    inconclusive.append("%s: counterexample not reproduced" % h.name)
         extra = []
         if extra_engines:
             for eng in extra_engines:
@@ -744,7 +770,7 @@ def do_replay(prop, path):
         log("cannot replay: harness or playback test missing")
         return 2
     rep, out = native_replay(h[0], rec["playback_test"])
-    log(out[-2000:])
+    log(out[-12000:])
     if rep:
         log("REPRODUCED property=%s harness=%s" % (prop, rec["harness"]))
         return 1
